@@ -190,11 +190,14 @@ def unique(run, F):
             break
         itn = it[0]
         firsts = [k_ for k_, v_ in defs.items() if v_ == '%s.next()' % itn]
-        pipe = [k_ for k_, v_ in defs.items()
-                if v_.startswith('%s.map(|a0| a0).chain(iter::once(NULL)).enumerate().filter_map(' % itn)]
+        head = '%s.map(|a0| a0).chain(iter::once(NULL)).enumerate().filter_map(' % itn
+        pipe = [k_ for k_, v_ in defs.items() if v_.startswith(head)]
         order = [e.split(' := ')[0] for e in ef if ' := ' in e]
-        if not (len(firsts) == 1 and len(pipe) == 1 and order.index(firsts[0]) < order.index(pipe[0])
-                and leaf == 'Box::new(%s)' % pipe[0]):
+        # the pipeline is either bound to a name that is returned or returned directly
+        ret_ok = (len(pipe) == 1 and leaf == 'Box::new(%s)' % pipe[0]) or \
+            (not pipe and leaf.startswith('Box::new(' + head))
+        if not (len(firsts) == 1 and ret_ok and
+                (not pipe or order.index(firsts[0]) < order.index(pipe[0]))):
             ok = False
             det = 'first element: %s; pipeline: %s; returns %s' % (firsts, pipe, leaf[:40])
             break
@@ -202,7 +205,7 @@ def unique(run, F):
         # run state seeded from the first element: Some(first) when it is valid, else null
         about = frozenset(c for c in cs if fe in c)
         seed = [v_ for k_, v_ in defs.items() if v_ in ('Some(%s)' % fe, 'NULL') and
-                order.index(firsts[0]) < order.index(k_) < order.index(pipe[0])]
+                order.index(firsts[0]) < order.index(k_) and (not pipe or order.index(k_) < order.index(pipe[0]))]
         seeds_seen.add((about, tuple(seed)))
         det = 'first element consumed, the rest enumerated from 0 with a sentinel None'
     if ok:
